@@ -115,7 +115,12 @@ def rand_rx(rng, steps):
             moves += ["seq", "seq", "alt"]
         mv = rng.choice(moves)
         if mv == "push":
-            stack.append(rng.choice(ATOMS))
+            if rng.random() < 0.25:
+                items = rng.sample([_CC("word"), _CC("digit"), _CL(32), _CL(45), _CL(95), _CR(A_, 122), _CR(65, 90),
+                                    _CR(48, 57), _CR(33, 47), _CR(58, 64), _CR(91, 96), _CR(123, 126)], rng.randrange(1, 7))
+                stack.append(_CLS(rng.random() < 0.6, items))
+            else:
+                stack.append(rng.choice(ATOMS))
         elif mv == "group":
             stack[-1] = {"r": "group", "kind": rng.choice(["cap", "noncap", "named"]), "body": stack[-1]}
         elif mv == "rep":
@@ -233,6 +238,21 @@ def main(chk):
                 ev["id"] = len(events) + 1
                 events.append(ev)
                 chk.count("index_sweep_runs")
+    # degenerate programs of the same grammar: the empty pattern and empty branches / bodies
+    E = {"r": "seq", "parts": []}
+    La = {"r": "lit", "c": A_}
+    for rx in (E, {"r": "alt", "alts": [La, E]}, {"r": "alt", "alts": [E, La]}, {"r": "group", "kind": "cap", "body": E},
+               {"r": "rep", "body": {"r": "group", "kind": "noncap", "body": E}, "lo": 0, "hi": INF, "lazy": False},
+               {"r": "seq", "parts": [{"r": "at", "at": "start"}, {"r": "at", "at": "end"}]},
+               {"r": "rep", "body": La, "lo": 0, "hi": 0, "lazy": False}):
+        for tape in (["lo"], ["hi"], ["lo1"], ["hi1"]):
+            for mr in (0, 32):
+                for via_fake in ([False, True] if mr == 32 else [False]):
+                    ev = run_one(rx, tape, mr, via_fake)
+                    if ev is not None:
+                        ev["id"] = len(events) + 1
+                        events.append(ev)
+                        chk.count("degenerate_pattern_runs")
     # code -> spec beyond the machine's depth: random ASTs from the same constructors (rich
     # alphabet, up to 6 steps), every boundary tape; the verdicts are Trace_C09's as for the rest
     nrand = 1500 if quick else 12000
